@@ -6,7 +6,7 @@ Hermitian pseudo-inverse, no symmetry, no vector basis) and, on connected networ
 Bloch eigenvalue); GFCrystalcalc.SetRates(...).D is compared with R1 for the same network.
 """
 import numpy as np
-from vmon import gen, contracts
+from vmon import gen, contracts, work_inter
 from vmon.util import Mon
 from vmon.ref import walk
 
@@ -20,7 +20,7 @@ ASSUMPTIONS = ['R1 tolerance 1e-9 x |D0| (uncorrelated part) - absolute in that 
                '(the class documents an equal-weight average over components)',
                'cutoffs are kept 1e-4 away from every interatomic distance',
                'the Green-function calculator is only exercised when the exact D is non-singular (lambda_min > 1e-3 |D0|): the lattice '
-               'Green function of a network that does not diffuse in some direction does not exist']
+               'Green function of a network that does not diffuse in some direction, or that only connects a sublattice of the crystal, does not exist']
 REQUIRED_OBS = {'eval:C02:D=R1': 30, 'eval:C02:D=R2': 5, 'eval:C02:GF.D=R1': 5, 'with_vector_basis': 3, 'pinv_branch': 2,
                 'multi_wyckoff': 3, 'dim2': 3}
 PER_CASE = 5
@@ -84,7 +84,7 @@ def run_case(case):
             comparable = all(any(frozenset(g.indexmap[chem][i] for i in cs[0]) == c for g in crys.G) for c in cs[1:])
         percolating = np.linalg.eigvalsh(Dref).min() > 1e-3 * scale
         mon.count('non_percolating', not percolating)
-        if N <= 4 and (k % 2 == 0) and percolating:
+        if N <= 4 and (k % 2 == 0) and percolating and work_inter.lattice_connected(crys, chem, jn):
             with mon.guard('C02:GFcalc'):
                 GF = GFcalc.GFCrystalcalc(crys, chem, sl, jn, 4)
                 GF.SetRates(pre, bE, preT, bET)
